@@ -42,6 +42,22 @@ def own_node_roots(F, fn):
         if t.get('k') == 'ref' and t['ty'].get('k') == 'adt' and t['ty']['path'] in NODE_ADTS:
             d = t['ty']['args'][0]
             out[(('P', names.get(i, 'arg%d' % i)),)] = d['path'] if d.get('k') == 'adt' else d.get('str')
+        else:
+            for fname, d in bundle_nodes(F, t).items():
+                out[(('P', fname),)] = d
+    return out
+
+
+def bundle_nodes(F, t):
+    """{field name: node data type} for a parameter whose type is (a reference to) a private struct that carries a
+    `&mut ListNode<X>` / `&mut HeapNode<X>` - an argument bundle such as `PollCtx { node, cx }`; the engine names
+    those fields like parameters (Engine._bundle_value)"""
+    from rl import bundle_field_types
+    out = {}
+    for name, ft in bundle_field_types(F, t):
+        if ft.get('k') == 'ref' and (ft.get('ty') or {}).get('k') == 'adt' and ft['ty'].get('path') in NODE_ADTS:
+            d = ft['ty']['args'][0]
+            out[name] = d['path'] if d.get('k') == 'adt' else d.get('str')
     return out
 
 
